@@ -14,7 +14,7 @@ def hook_commits():
 # id -> (category, text, design_ref, note, technique)
 CHECKS = {
  "C01": ("exploration",
-         "Exhaustive boundary-length grid (1..3 frames) plus proptest-generated messages up to MiB sizes, compared byte-for-byte with an independent RFC-23 encoder/decoder and round-tripped through the library decoder; greeting/READY captured from the wire of all 9 real socket types. Held on everything explored; not a proof for all lengths. Socket-level sends go through PUSH/DEALER/PUB/XPUB and also REQ (exactly one delimiter, also after earlier peers failed), ROUTER (minus the identity frame) and REP. The request a REP reply follows may contain empty frames inside its payload.",
+         "Exhaustive boundary-length grid (1..3 frames) plus proptest-generated messages up to MiB sizes, compared byte-for-byte with an independent RFC-23 encoder/decoder and round-tripped through the library decoder; greeting/READY captured from the wire of all 9 real socket types. Held on everything explored; not a proof for all lengths. Socket-level sends go through PUSH/DEALER/PUB/XPUB and also REQ (exactly one delimiter, also after earlier peers failed), ROUTER (minus the identity frame) and REP. The request a REP reply follows may contain empty frames inside its payload. Every message is also decoded through the library\'s real framed reader in 8 KiB reads (a multi-MiB frame is seen incomplete hundreds of times).",
          "DESIGN.md §3 C01",
          "Trusts the harness reference codec (harness/src/refcodec.rs) as a faithful transcription of RFC 23.",
          "property-based testing (proptest) + exhaustive boundary grid, differential against a reference codec"),
@@ -24,7 +24,7 @@ CHECKS = {
          "Trusts the reference parser; reads are capped at the framed reader's own 8 KiB buffer; exhaustive only for the stated stream lengths.",
          "property-based testing (proptest) + exhaustive partition enumeration; metamorphic (segmentation-invariance) and differential oracles"),
  "C03": ("fault_enumeration",
-         "Hostile byte streams (exhaustive small alphabets, a catalogue of malformed greetings/commands/huge declared sizes/frame floods, proptest structure-aware mutations, random bytes) are fed to the real framed reader on small-stack threads under a counting allocator, and at every handshake stage of all 9 socket types and through proxy(); a supervising parent process turns aborts, stack overflows and allocation bombs into replayable violations. Held on everything explored. After hostile input every send-capable socket type also SENDS (what a peer sent may only blow up inside the application\'s own calls), the connection established before the hostile one must still work, and floods of valid commands are fed at every socket stage. On real TCP and IPC endpoints a hostile or truncated handshake left open must not keep an established peer from exchanging nor new peers from connecting.",
+         "Hostile byte streams (exhaustive small alphabets, a catalogue of malformed greetings/commands/huge declared sizes/frame floods, proptest structure-aware mutations, random bytes) are fed to the real framed reader on small-stack threads under a counting allocator, and at every handshake stage of all 9 socket types and through proxy(); a supervising parent process turns aborts, stack overflows and allocation bombs into replayable violations. Held on everything explored. After hostile input every send-capable socket type also SENDS (what a peer sent may only blow up inside the application\'s own calls), the connection established before the hostile one must still work, and floods of valid commands are fed at every socket stage. On real TCP and IPC endpoints a hostile or truncated handshake left open must not keep an established peer from exchanging nor new peers from connecting. Well-formed READYs announcing each of the 12 RFC socket types (also PAIR / XSUB / STREAM, which the crate never announces) are among the hostile parts at every stage.",
          "DESIGN.md §3 C03, §2.6",
          "Stack and memory bounds are sensitivity choices stated in the evidence; only inputs the generators reach are covered.",
          "fuzzing / fault enumeration with crash isolation: exhaustive small alphabets + structure-aware mutation (proptest), oracles: no panic/abort, heap growth proportional to bytes received"),
@@ -44,7 +44,7 @@ CHECKS = {
          "Liveness is decided as bounded liveness under a harness-owned executor; 'eventually' under an arbitrary OS scheduler is not claimed.",
          "exhaustive schedule-string enumeration + proptest against the real fair queue; executor-model liveness oracle and bounded-bypass fairness oracle"),
  "C04": ("exploration",
-         "The full 226,800-cell grid of scripted raw peers (local type x announced Socket-Type x version x mechanism x signature x identity x first item incl. a READY with garbage after an intact Socket-Type property) attached to real sockets through the real greeting/READY exchange, all 144 SocketType::compatible queries, and proptest decoration; judged by an independent RFC-23 admission predicate, behavioural 'registered exactly once' checks per socket type, and 'rejected means closed, silent and never routed to'. The stated grid is enumerated exhaustively; everything beyond it is sampled. Every one-coordinate deviation from the valid cell is also run over the REAL accept path (bound TCP/IPC socket with a monitor: exactly one Accepted / AcceptFailed, refused connection closed) and over the connect path against a raw listener. A quarter of the real accept-path cells run while another raw client is mid-handshake on the same endpoint.",
+         "The full 226,800-cell grid of scripted raw peers (local type x announced Socket-Type x version x mechanism x signature x identity x first item incl. a READY with garbage after an intact Socket-Type property) attached to real sockets through the real greeting/READY exchange, all 144 SocketType::compatible queries, and proptest decoration; judged by an independent RFC-23 admission predicate, behavioural 'registered exactly once' checks per socket type, and 'rejected means closed, silent and never routed to'. The stated grid is enumerated exhaustively; everything beyond it is sampled. Every one-coordinate deviation from the valid cell is also run over the REAL accept path (bound TCP/IPC socket with a monitor: exactly one Accepted / AcceptFailed, refused connection closed) and over the connect path against a raw listener. A quarter of the real accept-path cells run while another raw client is mid-handshake on the same endpoint. Adaptive peers observe the identities generated for anonymous peers and announce the ones a predictable generator would hand out next (big- / little-endian successors, extrapolated difference, libzmq\'s 00||be32(n)); anonymous peers admitted afterwards must still get identities nobody holds.",
          "DESIGN.md §3 C04",
          "Trusts the RFC compatibility table typed into the harness; PLAIN/CURVE count as known mechanisms as the statement says.",
          "exhaustive configuration grid + proptest, reference admission predicate, behavioural registration oracle"),
@@ -69,15 +69,15 @@ CHECKS = {
          "DESIGN.md §3 C11", "Comparison only at quiescent points.",
          "exhaustive history enumeration + proptest against a reference multiset-prefix model"),
  "C12": ("fault_enumeration",
-         "PUB/XPUB with subscribers under generated back-pressure (accept k bytes then stall, partial writes, resume, never drain, BrokenPipe) while messages around the 128 KiB high-water mark are published: publish never blocks, healthy subscribers miss nothing, slow subscribers' wires stay well-formed order-preserving subsequences, at most HWM + one message is buffered (wire accounting and counting allocator), broken subscribers do not fail the publish. Publishes include repeated and empty frames; a subscriber with an announced identity coming back on a fresh connection (old one idle, stalled, failing or closing around the come-back) must receive everything published after it subscribed. In a third of the cases everybody subscribes to a non-empty topic and half of the publishes do not match (first frame a proper prefix of the subscription, empty, or unrelated): subscribers receive (a subsequence of) the matching publishes only. Frame sizes include 254 / 255 / 256 bytes.",
+         "PUB/XPUB with subscribers under generated back-pressure (accept k bytes then stall, partial writes, resume, never drain, BrokenPipe) while messages around the 128 KiB high-water mark are published: publish never blocks, healthy subscribers miss nothing, slow subscribers' wires stay well-formed order-preserving subsequences, at most HWM + one message is buffered (wire accounting and counting allocator), broken subscribers do not fail the publish. Publishes include repeated and empty frames; a subscriber with an announced identity coming back on a fresh connection (old one idle, stalled, failing or closing around the come-back) must receive everything published after it subscribed. In a third of the cases everybody subscribes to a non-empty topic and half of the publishes do not match (first frame a proper prefix of the subscription, empty, or unrelated): subscribers receive (a subsequence of) the matching publishes only. Frame sizes include 254 / 255 / 256 bytes. On real TCP and IPC endpoints 1..3 subscribers stalled inside their handshake (the slowest possible subscriber) must not keep other subscribers from joining and receiving every publish.",
          "DESIGN.md §3 C12", "HWM is asynchronous-codec's default (131072).",
          "fault injection (back-pressure) + proptest; wire-tap and heap-accounting oracles"),
  "C13": ("exploration",
-         "Proptest histories of subscribe/unsubscribe on a real SUB interleaved with PUB/XPUB peers joining as separate actors, joiners optionally suspended between the socket's snapshot of its set and their registration, one peer with failing writes; plus a targeted enumeration of join positions. All live peers must agree per topic, agree with the API history where unambiguous, never hold duplicate subscriptions, and one broken peer must not stop the others. Peers with announced identities come back under them (Rejoin); set semantics throughout; a call may only fail when a connection\'s writes fail. Topics include 253 / 254 / 255 / 256 / 70000-byte ones (subscription messages at the short/long frame boundary).",
+         "Proptest histories of subscribe/unsubscribe on a real SUB interleaved with PUB/XPUB peers joining as separate actors, joiners optionally suspended between the socket's snapshot of its set and their registration, one peer with failing writes; plus a targeted enumeration of join positions. All live peers must agree per topic, agree with the API history where unambiguous, never hold duplicate subscriptions, and one broken peer must not stop the others. Peers with announced identities come back under them (Rejoin); set semantics throughout; a call may only fail when a connection\'s writes fail. Topics include 253 / 254 / 255 / 256 / 70000-byte ones (subscription messages at the short/long frame boundary). A quarter of the initial peers and half of the anonymous joiners announce an empty Identity (libzmq\'s default) and must not share a registration.",
          "DESIGN.md §3 C13", "Interleavings at await granularity; connect()-path joins cannot overlap a call.",
          "stateful property-based testing (proptest) with a harness-owned scheduler; per-peer wire folding oracle"),
  "C14": ("exploration",
-         "For every socket type with recv: every delivery prefix of a 3-frame message x 0..4 polls before the recv future is dropped (one or two abandoned calls), and proptest scripts with repeated abandonment; completed recv results must equal what was put on the wire; REQ after an abandoned recv must still refuse a send and return the outstanding reply; REP must still accept its pending reply. Also runs of 70 messages with every recv polled once or twice and dropped, and peers ending between abandoned recvs. Fixed-identity peers may come back on a fresh connection right after an abandoned recv or while a recv is pending.",
+         "For every socket type with recv: every delivery prefix of a 3-frame message x 0..4 polls before the recv future is dropped (one or two abandoned calls), and proptest scripts with repeated abandonment; completed recv results must equal what was put on the wire; REQ after an abandoned recv must still refuse a send and return the outstanding reply; REP must still accept its pending reply. Also runs of 70 messages with every recv polled once or twice and dropped, and peers ending between abandoned recvs. Fixed-identity peers may come back on a fresh connection right after an abandoned recv or while a recv is pending. 1..3 command frames (redundant READY) arrive, whole or cut, while a recv of any of 7 socket types is pending; a recv still pending afterwards is dropped, REQ must still refuse the next send and the message sent next must be returned.",
          "DESIGN.md §3 C14", "Cancellation points are the suspension points reachable through pipe reads.",
          "exhaustive cancellation-point enumeration + proptest; reference-model oracle"),
  "C15": ("exploration",
